@@ -6,7 +6,7 @@
 (* A row is a sequence of <<output name, value>> pairs (as in Sem).        *)
 (***************************************************************************)
 EXTENDS Schema, SequencesExt
-FlatMapI(s, F(_)) == FlattenSeq([i \in 1..Len(s) |-> F(s[i])])
+FlatMapI(s, F(_)) == FlattenSeq(<<>> \o [i \in 1..Len(s) |-> F(s[i])])
 Str(chars) == StrV(chars)
 RECURSIVE RenderChars(_)
 RenderChars(t) ==
